@@ -1,6 +1,5 @@
 \* the code as it is, validator 2 is NOT a proposer (proposer(1,0) = 3); rounds 0, one height,
 \* one valid peer value, votes from peers 1 and 3; every crash point, up to 2 crashes
-\* Measured: 198,662 distinct states, depth 40.
 CONSTANTS
   NV = 4
   PowerOf <- DrvPowerOf
